@@ -123,7 +123,7 @@ def _mk_codecs():
     return UserAFileCodec, UserBCodec, GreedyFileCodec, GreedyCodec
 
 
-TAGS = ["str_ascii", "str_empty", "str_nonascii", "str_newlines", "str_big", "bytes_plain", "bytes_empty", "bytes_all", "bytes_big",
+TAGS = ["str_ascii", "str_empty", "str_nonascii", "str_newlines", "str_bom", "str_big", "bytes_plain", "bytes_empty", "bytes_all", "bytes_big",
         "none", "int", "float", "nested", "obj", "bool", "frame0", "frame1", "frame_labels", "frame_named_index", "frame_odd_names", "user_a", "user_b", "str_subclass", "str_enum", "bytes_subclass"]
 
 
@@ -502,6 +502,90 @@ def lookalike_job(arg):
     return rep
 
 
+def _reversed_text_codec(ref="acme.reversed_text"):
+    from dds.structures import CodecProtocol, ProtocolRef, SupportedType
+
+    class ReversedText(CodecProtocol):
+        """takes the str type over from the built-in codec on the registry it is added to (add_codec)."""
+
+        def ref(self):
+            return ProtocolRef(ref)
+
+        def handled_types(self):
+            return [SupportedType("str")]
+
+        def serialize_into(self, blob, loc):
+            with _open_loc(loc, "wb") as f:
+                f.write(blob[::-1].encode("utf-8"))
+
+        def deserialize_from(self, loc):
+            with _open_loc(loc, "rb") as f:
+                return f.read().decode("utf-8")[::-1]
+
+    return ReversedText()
+
+
+def cross_registry_job(arg):
+    """Two stores with registries of their own in one process (a DBFS store has a private registry, the local and memory
+    stores use the default one): a codec registered on one of them does not change how the other writes and reads."""
+    first = arg
+    import dds
+    from dds import _api
+    from vp.fakedbutils import FakeDbutils
+
+    rep = core.Report("C17")
+    rep.evaluations = 1
+    dds.accept_module("checks")
+    case = {"cross_registry": True, "first": first}
+    text = value("str_nonascii")
+    with core.Scratch("vp_c17x_") as root:
+        _DBFS_ROOT[0] = root
+        ldirs = dict(internal_dir=os.path.join(root, "li"), data_dir=os.path.join(root, "ld"))
+
+        def use(which):
+            if which == "dbfs":
+                dds.set_store("dbfs", internal_dir="dbfs:/internal", data_dir="dbfs:/data", dbutils=FakeDbutils(root))
+            else:
+                dds.set_store("local", **ldirs)
+            return _api._store()
+
+        st1 = use(first)
+        st1.codec_registry().add_codec(_reversed_text_codec())
+        v1 = dds.keep("/c17x/on_first", produce, "str_nonascii")
+        other = "local" if first == "dbfs" else "dbfs"
+        use(other)
+        v2 = dds.keep("/c17x/on_other", produce2, "str_ascii")
+        v3 = dds.keep("/c17x/text_on_other", produce, "str_nonascii")
+        l3 = dds.load("/c17x/text_on_other")
+        rep.count("reads_checked", 2)
+        if v1 != text or v3 != text or l3 != text:
+            rep.violate("codec registered on the %s store's registry: keeps / load of the text give %r / %r / %r" % (first, v1[:20], v3[:20], l3[:20]), case, mechanism="registry-shared-between-stores")
+        # what the other store wrote is in the built-in format: protocol recorded and the verbatim copy under its data directory
+        if other == "local":
+            fp = os.path.join(ldirs["data_dir"], "c17x", "text_on_other")
+            metas = [os.path.join(ldirs["internal_dir"], "blobs", f) for f in os.listdir(os.path.join(ldirs["internal_dir"], "blobs")) if f.endswith(".meta")]
+        else:
+            fp = os.path.join(root, "dbfs", "data", "c17x", "text_on_other")
+            bd = os.path.join(root, "dbfs", "internal", "blobs")
+            metas = [os.path.join(bd, f) for f in os.listdir(bd) if f.endswith(".meta")]
+        rep.count("verbatim_text_checks")
+        try:
+            with open(fp, "rb") as f:
+                raw = f.read()
+        except OSError as e:
+            raw = repr(e).encode()
+        if raw != text.encode("utf-8"):
+            rep.violate("a text codec was registered on the %s store's registry only; the %s store wrote the text as %r under its data directory" % (first, other, raw[:30]), case, mechanism="registry-shared-between-stores")
+        protos = set()
+        for mp in metas:
+            with open(mp) as f:
+                protos.add(json.load(f).get("protocol"))
+        if "acme.reversed_text" in protos:
+            rep.violate("a text codec was registered on the %s store's registry only; blobs of the %s store name the protocol acme.reversed_text" % (first, other), case, mechanism="registry-shared-between-stores")
+    rep.nontriv(("c17cross", first))
+    return rep
+
+
 def fork_job(arg, prop="C17"):
     """Worker processes forked from a process whose DBFS store has already transferred blobs read different paths at the
     same time (their downloads are lined up by a barrier in the fake dbutils): each gets its own value."""
@@ -592,7 +676,7 @@ def run(tier, seed):
                 jobs.append((kind, sc, tags))
     fjobs = [(None, ["str_ascii", "str_nonascii"]), (None, ["str_ascii", "nested", "bytes_plain"]), (None, ["frame0", "obj"])]
     ljobs = [(kind, refs, cache) for kind in ("local", "dbfs") for refs in (("acme.string", "zip.bytes"), ("arch.pickle", "fast.pandas"), ("my.codec.string", "bytes")) for cache in (None, 2)]
-    results = core.fork_map(lambda j: {"f": fork_job, "j": job, "l": lookalike_job}[j[0]](j[1]), [("j", j) for j in jobs] + [("f", j) for j in fjobs] + [("l", j) for j in ljobs], timeout=900)
+    results = core.fork_map(lambda j: {"f": fork_job, "j": job, "l": lookalike_job, "x": cross_registry_job}[j[0]](j[1]), [("j", j) for j in jobs] + [("f", j) for j in fjobs] + [("l", j) for j in ljobs] + [("x", "dbfs"), ("x", "local")], timeout=900)
     for r in results[len(jobs):]:
         if isinstance(r, core.JobFailed):
             rep.inconclusive.append("fork job: %r" % (r,))
@@ -617,6 +701,9 @@ def replay(payload):
         return rep
     if c.get("lookalike"):
         rep.merge(lookalike_job((c["kind"], tuple(c["refs"]), c["cache"])))
+        return rep
+    if c.get("cross_registry"):
+        rep.merge(cross_registry_job(c["first"]))
         return rep
     rep.merge(job((c["kind"], c["scenario"], c["tags"])))
     return rep
